@@ -29,6 +29,12 @@ class Snap:
     pass
 
 
+class NSnap:
+    """Snapshot of an object whose instance __dict__ *is* its state (TagLibrary): the snapshot's __dict__ holds
+    exactly the entries of the original; bookkeeping lives in slots."""
+    __slots__ = ('orig__', 'cls__', '__dict__')
+
+
 class SList(list):
     pass
 
@@ -94,6 +100,14 @@ def snapshot(v, memo=None, depth=3):
         return v
     if id(v) in memo:
         return memo[id(v)]
+    if type(v).__name__ == 'TagLibrary':
+        s = NSnap()
+        memo[id(v)] = s
+        s.orig__ = v
+        s.cls__ = type(v)
+        for k, x in v.__dict__.items():
+            s.__dict__[k] = _copy_container(x, 2, memo, 0) if isinstance(x, (list, dict)) else x
+        return s
     s = Snap()
     memo[id(v)] = s
     s.orig__ = v
@@ -109,8 +123,6 @@ def snapshot(v, memo=None, depth=3):
             setattr(s, n, snapshot(x, memo, depth - 1))
         else:
             setattr(s, n, x)
-    if hasattr(v, '__dict__') and type(v).__name__ == 'TagLibrary':
-        s.__dict__['dict__'] = dict(v.__dict__)
     return s
 
 
@@ -336,7 +348,8 @@ def make_wrapper(key, cands, real, props):
             for exc, rd in c.raises.items():
                 if rd.get('always'):
                     _fail(key, 'raises', f'raises-always:{exc}:normal-exit', env)
-                if rd.get('when') is not None and rd.get('iff', True) and _call_pred(rd['when'], env2):
+                mustp = rd.get('must') or rd.get('when')
+                if mustp is not None and rd.get('iff', True) and _call_pred(mustp, env2):
                     _fail(key, 'raises', f'raises-iff:{exc}:normal-exit', env)
             for tag, preds in c.ensures.items():
                 if props and tag not in props:
